@@ -198,4 +198,40 @@ def parse (bytes : List Char) : Outcome (List (List Char × List Char)) :=
   let ls := rlines bytes
   loopGo (ls.length + 2) ls []
 
+/-! ### `var/lib/dpkg/status.d/<name>` (distroless images)
+
+Same reader, two differences (`strings.Contains(input.Path, "status.d")`): a stanza WITHOUT a `Status` field is reported (the files of a
+distroless image carry none); and when `ReadMIMEHeader` fails, the file yields no packages and no error (`return []*extractor.Package{}, nil`).
+`usr/lib/opkg/status` is read exactly like `var/lib/dpkg/status` (`parse`). Tied to the Go code by the stream (format `dpkgd`); no round-trip
+theorem is stated for this variant. -/
+
+def processDGo (h : Hdr) : Option Verdict :=
+  if (get h "Status".toList).isEmpty then
+    let name := get h "Package".toList
+    let ver := get h "Version".toList
+    if name.isEmpty || ver.isEmpty then some .skip else
+    match sourceNVGo (get h "Source".toList) with
+    | none => none
+    | some none => some .fail
+    | some (some _) => some (.pkg name ver)
+  else processGo h
+
+def loopGoD : Nat → List Line → List (List Char × List Char) → Outcome (List (List Char × List Char))
+  | 0, _, acc => .ok acc
+  | fuel + 1, ls, acc =>
+    if headSpTab ls then .ok [] else
+    match stanza ls [] none with
+    | none => .ok []
+    | some (h, eof, rest) =>
+      if h.isEmpty then (if eof then .ok acc else loopGoD fuel rest acc) else
+      match processDGo h with
+      | none => .panic
+      | some .fail => .err
+      | some .skip => if eof then .ok acc else loopGoD fuel rest acc
+      | some (.pkg n v) => if eof then .ok (acc ++ [(n, v)]) else loopGoD fuel rest (acc ++ [(n, v)])
+
+def parseD (bytes : List Char) : Outcome (List (List Char × List Char)) :=
+  let ls := rlines bytes
+  loopGoD (ls.length + 2) ls []
+
 end Scalibr.Parsers.Dpkg
